@@ -760,6 +760,7 @@ func init() {
 	props["C16"] = func(x *Ctx) {
 		n := 12000 * x.scale
 		ratioCases(false, func(s, t []byte) { x.recaseInvariant(s, t) })
+		x.specialPairs(func(s, t []byte) { x.recaseInvariant(s, t) })
 		for i := 0; i < n; i++ {
 			s, t := x.g.pair(streamValid)
 			x.recaseInvariant(s, t)
@@ -806,6 +807,7 @@ func init() {
 	props["C17"] = func(x *Ctx) {
 		n := 10000 * x.scale
 		ratioCases(true, func(s, t []byte) { x.selfConsistent(s, t) })
+		x.specialPairs(func(s, t []byte) { x.selfConsistent(s, t) })
 		for i := 0; i < n; i++ {
 			st := streamValid
 			if i%2 == 1 {
@@ -836,6 +838,10 @@ func init() {
 			}
 			x.embedding(nil, s, []byte("!"), t)
 			x.embedding([]byte("xx"), s, []byte("zzzzzzzzzzzzz"), t)
+		})
+		x.specialPairs(func(s, t []byte) {
+			x.embedding(nil, s, []byte("!"), t)
+			x.embedding([]byte("世x"), s, []byte("zzzzzzzzzzzzzzzzzzzzzzzzzzzzzzzzzzzzzzzz"), t)
 		})
 		for i := 0; i < n; i++ {
 			s, t := x.g.pair(streamValid)
